@@ -105,6 +105,7 @@ type Event struct {
 
 // Exec verifies one root function.
 type Exec struct {
+	proving bool // the clause being evaluated is a proof goal (not an assumption)
 	eng    *Engine
 	root   *ssa.Function
 	events []Event
@@ -140,6 +141,8 @@ func (x *Exec) unsupported(format string, a ...any) {
 	}
 	x.errors = append(x.errors, msg)
 }
+
+func (x *Exec) nextID() int { x.n++; return x.n }
 
 func (x *Exec) fresh(prefix string, s *Sort) Term {
 	x.n++
